@@ -53,6 +53,9 @@ def run(model: RepoModel, rep, tier: str):
                        "the position the graph producer assigns to it", 4)
     rep.rule("C10.R6", "nothing is dropped on the way: every (source, sink) pair is evaluated unless its own tags justify skipping it, and a "
                        "method summary accumulates (unions) what each exit of the method contributes", 2)
+    from ..generic import check_accumulators
+    check_accumulators(model, rep, "C10.R7", [r for r in ("taint/taint_analysis.py", "taint/rule_manager.py", "taint/taint_structs.py") if r in model.modules],
+                       {}, "sources, sinks, matching rules or propagated nodes are missing, so an explicit flow through them is not reported", 10)
     rep.rule("C10.R5", "worklist monotonicity: a node is re-enqueued only when a tag grew or once per propagation", 4)
 
     acc = accept_functions(ap)
@@ -393,6 +396,10 @@ def _text(old, new):
 
 
 MUTANTS = [
+    ("first-sink-only", TA,
+     _text("            elif self.rule_applier.apply_field_write_sink_rules(node):\n                node_list.append(node)\n",
+           "            elif self.rule_applier.apply_field_write_sink_rules(node):\n                node_list.append(node)\n                break\n"),
+     "C10.R7"),
     ("pairs-prefiltered", TA, lambda src: __import__("sa.mutate", fromlist=["x"]).insert_before_stmt_where(
         src, "TaintAnalysis", "find_flows", lambda st: isinstance(st, ast.Assign) and isinstance(st.targets[0], ast.Name) and st.targets[0].id == "original_manager",
         "if not nx.has_path(self.sfg, source, sink):\n    continue"), "every pair reaches"),
